@@ -191,7 +191,7 @@ def tlc(module, cfg, workers=None, simulate=None, depth=None, seed=None, env=Non
     """Run TLC on spec/<module>.tla with spec/<cfg>. Returns TlcResult. Raises Broken on tool failure."""
     os.makedirs(os.path.join(BUILD, "tlc"), exist_ok=True)
     meta = os.path.join(BUILD, "tlc", "meta-%s-%d-%d" % (os.path.basename(cfg), os.getpid(), random.randrange(1 << 30)))
-    jopts = "-Xmx%s -XX:+UseParallelGC" % heap
+    jopts = "-Xmx%s -Xss256m -XX:+UseParallelGC" % heap
     if dfs:
         jopts += " -Dtlc2.tool.queue.IStateQueue=StateDeque"
     cmd = ["java"] + jopts.split() + ["-cp", "/opt/veriftools/tla/tla2tools.jar:/opt/veriftools/tla/CommunityModules-deps.jar",
@@ -276,7 +276,7 @@ def tlc(module, cfg, workers=None, simulate=None, depth=None, seed=None, env=Non
         if k < 0:
             k2 = out.find("Reason:")
             k1 = out.find("Error:")
-            msg = (out[k1:k1 + 600] + "\n...\n" + out[k2:k2 + 600]) if k2 >= 0 else out[-2000:]
+            msg = (out[k1:k1 + 600] + "\n...\n" + out[k2:k2 + 600]) if k2 >= 0 else (out[k1:k1 + 900] if k1 >= 0 else out[-1500:])
         else:
             msg = out[k:k + 1500]
         raise Broken("TLC failed rc=%s on %s/%s:\n%s" % (rc, module, cfg, msg))
